@@ -229,8 +229,7 @@ def _get_wien2k_struct(cell, npts, r0s, rmts):
 
     for i, pos in enumerate(positions):
         for j in (0, 1, 2):
-            if pos[j] < 0:
-                pos[j] += 1
+            pos[j] -= np.floor(pos[j])
             if int(float("%10.8f" % pos[j])) == 1:
                 pos[j] = 0.0
 
